@@ -73,3 +73,13 @@ def run(ctx):
     from ..engines import varkind as V16E
     V16E.v16_injectivity_is_about_values(ctx)
     ctx.floor("V16", 1)
+    # rules shared after round 11: the clause is necessary for this property as well
+    from ..engines import totality as T11
+    T11.check_set_empty_writers(ctx)
+    ctx.floor("A6", 3)
+    from ..engines import mapplumbing as M11
+    M11.m7_equivalence_predicate(ctx)
+    ctx.floor("M7", 4)
+    from ..engines import expandverified as X11
+    X11.x8_cache_filled_before_the_database_is_made(ctx)
+    ctx.floor("X8", 1)
